@@ -628,6 +628,56 @@ def run(ctx):
                    site="%s@chunk-loop" % L.short(fn)[:110])
     ctx.floor("C11.R7b", n7b, 2, "raw payload readers")
 
+    # ---------------------------------------------------------------- R9 entry points: size pass before write pass
+    def const_of(rec, name, depth=0):
+        r = recs.get(rec)
+        if r is None or depth > 3:
+            return None
+        v = r.get("consts", {}).get(name)
+        if v is not None:
+            return v
+        for b in r.get("bases", []):
+            v = const_of(b.get("type"), name, depth + 1)
+            if v is not None:
+                return v
+        return None
+    n9 = 0
+    for fn in fb.find(pred=lambda f: f.record == "babylon::Serialization" and f.name == "serialize_to_coded_stream" and f.has_cfg()):
+        ig = IG(fn, inline=lambda fr, ev, callee: callee.record == "babylon::Serialization" and not callee.lambda_)
+        live = ig.live_nodes()
+        sizing = [n for n in ig.ev_nodes() if n.id in live and n.ev["e"] == "call" and TRAIT_CALL.match(n.ev.get("callee", "") or "") and
+                  n.ev.get("name") == "calculate_serialized_size"]
+        writing = [n for n in ig.ev_nodes() if n.id in live and n.ev["e"] == "call" and TRAIT_CALL.match(n.ev.get("callee", "") or "") and
+                   n.ev.get("name") == "serialize"]
+        if not writing:
+            continue
+        cached = const_of(trait_of(writing[0].ev.get("callee")), "SERIALIZED_SIZE_CACHED")
+        if cached is None:
+            continue
+        n9 += 1
+        ok = True
+        if cached == "1":
+            ok = bool(sizing) and all(ig.dominated_by(w_, sizing) for w_ in writing)
+        ctx.ob("C11.R9a", L.short(fn)[:110], ok, fn.loc,
+               "a type whose writer consumes cached sizes must be sized (calculate_serialized_size) before it is written: without the "
+               "size pass the writer emits the length prefixes of the previous value")
+    for fn in fb.find(pred=lambda f: f.record == "babylon::Serialization" and f.name in ("parse_from_coded_stream",) and f.has_cfg()):
+        n9 += 1
+        ig = IG(fn, inline=nin)
+        rets = [n for n in ig.ev_nodes() if n.ev["e"] == "ret" and "v" in n.ev]
+        ok = bool(rets) and all(ig.ev_of(strip_cast(ig.resolve(r_.ev["v"], r_.frame))) is not None and
+                                ig.ev_of(strip_cast(ig.resolve(r_.ev["v"], r_.frame))).ev.get("name") == "deserialize" for r_ in rets)
+        ctx.ob("C11.R9b", L.short(fn)[:110], ok, fn.loc, "the parse entry point must report the parser's own verdict")
+    for fn in fb.find(pred=lambda f: f.record == "babylon::Serialization" and f.name == "parse_from_array" and f.has_cfg()):
+        n9 += 1
+        ig = IG(fn, inline=nin)
+        ctors = [n for n in ig.ev_nodes() if n.ev["e"] == "ctor" and "CodedInputStream" in (n.ev.get("type") or n.ev.get("callee", ""))]
+        ok = bool(ctors) and all(len(c_.ev.get("args", [])) == 2 and
+                                 any(sd.get("k") == "p" and sd.get("i") == 0 for sd in walk(c_.ev["args"][0])) and
+                                 any(sd.get("k") == "p" and sd.get("i") == 1 for sd in walk(c_.ev["args"][1])) for c_ in ctors)
+        ctx.ob("C11.R9c", L.short(fn)[:110], ok, fn.loc, "the input window handed to the parser must be exactly (data, size)")
+    ctx.floor("C11.R9", n9, 20, "serialization entry point instances")
+
     # ---------------------------------------------------------------- R5 / R7 BytesUntilLimit discipline
     n7 = 0
     for fn in fb.find(pred=lambda f: f.has_cfg() and not f.lambda_ and f.name == "deserialize"):
